@@ -47,6 +47,10 @@ func (f *Fmt) tf() *document.TextFormat {
 //	image list para                 unrelated content
 //	reopen         ToBytes -> OpenFromMemory, continue on the reopened document
 //	render         LoadTemplateFromDocument + RenderTemplateToDocument without data; B = continue on the rendered document
+//	render2        LoadTemplateFromDocument once + two RenderTemplateToDocument calls without data (documents A and B), then
+//	               A is extended with the calls XA and B with the calls XB (definitions, page settings, content; Ord = order of
+//	               the renders and extensions), and only then both are judged, each against its own model; Cont = 0 continue on
+//	               the template document, 1 on A, 2 on B. The documents left behind are judged once more at the end of the history.
 type Op struct {
 	K      string    `json:"k"`
 	Kind   string    `json:"kind,omitempty"`
@@ -60,6 +64,10 @@ type Op struct {
 	S      string    `json:"s,omitempty"`
 	F      []float64 `json:"f,omitempty"`
 	Img    *gen.Img  `json:"img,omitempty"`
+	XA     []Op      `json:"xa,omitempty"`
+	XB     []Op      `json:"xb,omitempty"`
+	Ord    string    `json:"ord,omitempty"` // render2: "rrab" render A, render B, extend A, extend B; "rarb" render A, extend A, render B, extend B; "alt" render both, extend alternately
+	Cont   int       `json:"cont,omitempty"`
 }
 
 type Case struct {
@@ -446,6 +454,12 @@ func run(c Case) *kit.Result {
 	survive := false // a definition existed when a reopen/render happened
 	sinceReplace := c.Start != nil
 	titlePg, titleSet := false, false
+	var sides []side
+	keep := func(d *document.Document, dm model, name string, op int) {
+		if len(sides) < maxSides {
+			sides = append(sides, side{d, dm, name, op})
+		}
+	}
 	const maxFail = 12
 	for i, op := range c.Ops {
 		if len(res.Failures) >= maxFail {
@@ -453,54 +467,9 @@ func run(c Case) *kit.Result {
 		}
 		k, isDef := opKey(op)
 		var err error
-		var call func()
 		switch op.K {
-		case "hdr":
-			call = func() { err = doc.AddHeader(document.HeaderFooterType(op.Kind), op.Text) }
-		case "ftr":
-			call = func() { err = doc.AddFooter(document.HeaderFooterType(op.Kind), op.Text) }
-		case "hdrpn":
-			call = func() { err = doc.AddHeaderWithPageNumber(document.HeaderFooterType(op.Kind), op.Text, op.PN) }
-		case "ftrpn":
-			call = func() { err = doc.AddFooterWithPageNumber(document.HeaderFooterType(op.Kind), op.Text, op.PN) }
-		case "hdrfmt", "ftrfmt":
-			var cfg *document.HeaderFooterConfig
-			if !op.NilCfg {
-				cfg = &document.HeaderFooterConfig{Text: op.Text, Format: op.Fmt.tf(), Alignment: document.AlignmentType(op.Align)}
-			}
-			if op.K == "hdrfmt" {
-				call = func() { err = doc.AddFormattedHeader(document.HeaderFooterType(op.Kind), cfg) }
-			} else {
-				call = func() { err = doc.AddFormattedFooter(document.HeaderFooterType(op.Kind), cfg) }
-			}
 		case "firstpage":
-			call = func() { doc.SetDifferentFirstPage(op.B) }
 			titlePg, titleSet = op.B, true
-		case "pagesize":
-			call = func() { _ = doc.SetPageSize(document.PageSize(op.S)) }
-		case "orient":
-			call = func() { _ = doc.SetPageOrientation(document.PageOrientation(op.S)) }
-		case "margins":
-			if len(op.F) == 4 {
-				call = func() { _ = doc.SetPageMargins(op.F[0], op.F[1], op.F[2], op.F[3]) }
-			}
-		case "hfdist":
-			if len(op.F) == 2 {
-				call = func() { _ = doc.SetHeaderFooterDistance(op.F[0], op.F[1]) }
-			}
-		case "image":
-			if op.Img != nil {
-				im := *op.Img
-				call = func() { _, _ = doc.AddImageFromData(im.Bytes(), im.Name, imgFormats[im.Fmt], im.W, im.H, nil) }
-			}
-		case "list":
-			if op.S == "number" {
-				call = func() { doc.AddNumberedList("item", 0, document.ListTypeDecimal) }
-			} else {
-				call = func() { doc.AddBulletList("item", 0, document.BulletTypeDot) }
-			}
-		case "para":
-			call = func() { doc.AddParagraph("body text") }
 		case "reopen":
 			var b []byte
 			var nd *document.Document
@@ -546,12 +515,46 @@ func run(c Case) *kit.Result {
 				return finish(res, shape, nDefs, defs, reopens, renders, redefAfterReopen, pnDefs, fmtDefs, survive)
 			}
 			if op.B {
+				keep(doc, m.clone(), "the template document", i)
 				doc = out
 				sinceReplace = true
 				shape = append(shape, "cont")
+			} else {
+				keep(out, m.clone(), "the rendered document", i)
+			}
+			continue
+		case "render2":
+			st := &dstats{defs: defs}
+			a, b, ok := renderTwice(res, doc, m, op, i, st)
+			nDefs, redefAfterReopen, pnDefs, fmtDefs = nDefs+st.nDefs, redefAfterReopen+st.redef, pnDefs+st.pn, fmtDefs+st.fm
+			shape = append(shape, st.shape...)
+			renders++
+			if len(m) > 0 {
+				survive = true
+			}
+			if !ok {
+				return finish(res, shape, nDefs, defs, reopens, renders, redefAfterReopen, pnDefs, fmtDefs, survive)
+			}
+			switch op.Cont {
+			case 1:
+				keep(doc, m.clone(), "the template document", i)
+				keep(b.doc, b.m, "rendered document B", i)
+				doc, m = a.doc, a.m
+			case 2:
+				keep(doc, m.clone(), "the template document", i)
+				keep(a.doc, a.m, "rendered document A", i)
+				doc, m = b.doc, b.m
+			default:
+				keep(a.doc, a.m, "rendered document A", i)
+				keep(b.doc, b.m, "rendered document B", i)
+			}
+			if op.Cont == 1 || op.Cont == 2 {
+				sinceReplace = true
+				shape = append(shape, fmt.Sprintf("cont%d", op.Cont))
 			}
 			continue
 		}
+		call := simpleCall(doc, op, &err)
 		if call == nil {
 			continue
 		}
@@ -598,6 +601,7 @@ func run(c Case) *kit.Result {
 	if len(res.Failures) < maxFail {
 		checkpoint(res, doc, m, "", len(c.Ops))
 	}
+	judgeSides(res, sides, len(c.Ops))
 	return finish(res, shape, nDefs, defs, reopens, renders, redefAfterReopen, pnDefs, fmtDefs, survive)
 }
 
